@@ -239,8 +239,8 @@ func r112(c *Ctx) {
 			}
 		})
 	}
-	if n < 6 {
-		r.Undecide("R11.2", "", "AST literals with name fields", "", fmt.Sprintf("%d found, floor 6", n))
+	if n < 3 {
+		r.Undecide("R11.2", "", "AST literals with name fields", "", fmt.Sprintf("%d found, floor 3", n))
 	}
 }
 
@@ -886,8 +886,8 @@ func r118(c *Ctx) {
 			}
 		}
 	}
-	if n < 6 {
-		r.Undecide("R11.8", "", "nil returns of the expression parser", "", fmt.Sprintf("%d found (floor 6)", n))
+	if n < 3 {
+		r.Undecide("R11.8", "", "nil returns of the expression parser", "", fmt.Sprintf("%d found (floor 3)", n))
 	}
 }
 
